@@ -49,6 +49,8 @@ func renumIndexMap(before, after []tengo.Object) (cm []int, ok, scalar bool) {
 			case *tengo.Char:
 				d, ok := d.(*tengo.Char)
 				same = ok && d.Value == c.Value
+			case *tengo.CompiledFunction:
+				same = sameFnObject(c, d) // the output holds the rewritten copy of the function (repair O46)
 			}
 			if same {
 				found = j
